@@ -440,8 +440,59 @@ def scenario_index(events, marker="Scenario"):
     return spans
 
 
+def validate_traces_parallel(ctx, module, trace_path, invariants, prop_prefix, chunks=8, max_reports=40, heap="8g", **kw):
+    """validate_traces on `chunks` parts of the trace (cut at scenario boundaries) in parallel TLC processes: a
+    violating scenario only costs a re-run of its own part. Scenarios are independent (one initial state each)."""
+    import concurrent.futures
+    events = read_ndjson(trace_path)
+    spans = scenario_index(events)
+    if not spans:
+        raise Infra("trace %s has no Scenario line" % trace_path)
+    chunks = max(1, min(chunks, len(spans) // 50 or 1))
+    if chunks == 1:
+        return validate_traces(ctx, module, trace_path, invariants, prop_prefix, max_reports=max_reports, heap=heap, **kw)
+    per = (len(spans) + chunks - 1) // chunks
+    parts = []
+    for c in range(chunks):
+        sp = spans[c * per:(c + 1) * per]
+        if not sp:
+            continue
+        path = "%s.part%d" % (trace_path, c)
+        with open(path, "w") as f:
+            for ev in events[sp[0][0] - 1:sp[-1][1]]:
+                f.write(json.dumps(ev) + "\n")
+        parts.append((c, path))
+    del events
+    gb = max(2, int(re.sub(r"\D", "", heap) or 8) * 2 // max(1, len(parts)) + 1)
+    workers = max(1, min(4, NCPU // len(parts)))
+    budget = max(5, (max_reports + len(parts) - 1) // len(parts))
+
+    def one(cp):
+        c, path = cp
+        try:
+            return validate_traces(ctx, module, path, invariants, prop_prefix, max_reports=budget, heap="%dg" % gb,
+                                   workers=workers, tag="-p%d" % c, **kw)
+        finally:
+            try:
+                os.remove(path)
+            except OSError:
+                pass
+    n = 0
+    errs = []
+    with concurrent.futures.ThreadPoolExecutor(max_workers=len(parts)) as ex:
+        futs = [ex.submit(one, cp) for cp in parts]
+        for f in futs:
+            try:
+                n += f.result()
+            except Infra as e:
+                errs.append(e)
+    if errs:
+        raise errs[0]
+    return n
+
+
 def validate_traces(ctx, module, trace_path, invariants, prop_prefix, constants=None, overrides=None, properties=(),
-                    max_reports=40, timeout=3600, spec="TraceSpec", heap="8g", workers=None, line_var="l", sig_detail=None):
+                    max_reports=40, timeout=3600, spec="TraceSpec", heap="8g", workers=None, line_var="l", sig_detail=None, tag=""):
     """Check a (concatenated) ndjson trace recorded from the real code against spec/<module>.tla.
 
     The trace module has one initial state per `Scenario` line (so counterexamples are short and
@@ -460,7 +511,7 @@ def validate_traces(ctx, module, trace_path, invariants, prop_prefix, constants=
     reports = 0
     total_states = 0
     while True:
-        d = prepare_spec_dir(ctx, "tv-%s-%d" % (module, reports))
+        d = prepare_spec_dir(ctx, "tv-%s%s-%d" % (module, tag, reports))
         # write the trace with excluded scenarios removed
         with open(os.path.join(d, "trace.ndjson"), "w") as f:
             kept = []
